@@ -124,7 +124,12 @@ def kkt(M, rhs, z, tau=1e-7):
 
 
 def unique_optimum(M, z, g=None, tol=1e-7):
-    """strict complementarity + full column rank on the free set => the NNLS optimum is unique"""
+    """the NNLS optimum is unique when M has full column rank (strictly convex objective); otherwise strict
+    complementarity + full column rank on the free set is sufficient"""
+    if M.shape[0] >= M.shape[1]:
+        s_all = np.linalg.svd(M, compute_uv=False)
+        if s_all.min() > 1e-9 * max(1.0, s_all.max()):
+            return True
     free = z > tol
     if g is not None:
         if np.any((~free) & (np.abs(g) <= tol)):
